@@ -114,6 +114,14 @@ func (ctx *Context) Parse(value string) error {
 		return err
 	}
 
+	if p.cur.data.codeOverflow {
+		// 超出指令上限的部分已被丢弃，继续执行只会得到残缺程序的结果
+		err = errors.New("E1: 指令过长，超出虚拟机指令上限，请不要发送过长的指令")
+		ctx.Error = err
+		verifParsed(ctx, value, err)
+		return err
+	}
+
 	ctx.code = p.cur.data.code
 	ctx.codeIndex = p.cur.data.codeIndex
 	verifParsed(ctx, value, nil)
